@@ -119,8 +119,8 @@ Lemma impl_brand_lifted : forall i, In i impls -> impl_args_brand_ok i = true.
 Proof. exact (proj1 (forallb_forall _ _) impl_brand_check). Qed.
 
 Lemma unsize_impls_present :
-  map (fun i => match i_self i with TPath n _ _ => n | _ => "?" end) (brand_carrying_impls "__CoercePtrInternal" impls)
-  = ["Gc"; "GcWeak"].
+  same_set (map (fun i => match i_self i with TPath n _ _ => n | _ => "?" end) (brand_carrying_impls "__CoercePtrInternal" impls))
+           ["Gc"; "GcWeak"] = true.
 Proof. vm_compute. reflexivity. Qed.
 
 (** The re-branding header [impl<'gc, 'u, T, U: ?Sized, K> __CoercePtrInternal<Gc<'u, U>> for Gc<'gc, T, K>] fails. *)
